@@ -75,3 +75,16 @@ check("C18",
       "commands are sh scripts; trusted: TLC, the shell, the counter files",
       "TLA+ spec (JobMap) model-checked with TLC; spec->code replay of covering behaviours with real subprocesses",
       "DESIGN.md 4/C18", modules=("JobMap", "MCJobMap"))
+
+check("C17",
+      "Part 1: TLC exhausts JobBind.tla (every order of creating/using 3 driver instances with distinct executable, "
+      "processor count and environment, <=6-7 operations) for NoCrossTalk and every (state, operation) pair is replayed on "
+      "a harness-defined driver and on the real XTBDriver.  Part 2: TLC enumerates every command list of length 1..3 (4 in "
+      "the thorough tier) over 5 command kinds (named/unnamed, exit 0/non-zero, writing none/one/both requested files) and "
+      "computes, step by step as run_local does, the required result (executed prefix, captured names, returned files, exit "
+      "status, no residue); each job is executed by the real _molli_run and its execution log, JobOutput (stdout/stderr "
+      "content, files byte for byte, input hash), exit status, materialised text/binary inputs, environment override and "
+      "scratch listing are compared with TLC's result.",
+      "bounded command alphabet; commands are sh scripts; return_files is a tuple; trusted: TLC, sh",
+      "TLA+ specs (JobBind, JobRun) model-checked with TLC; spec->code replay of every generated operation order / job",
+      "DESIGN.md 4/C17", modules=("JobBind", "MCJobBind", "JobRun", "MCJobRun"))
